@@ -24,7 +24,8 @@ LEMMAS = {}          # name -> Lemma
 
 
 class Clause:
-    def __init__(self, expr, carries=None, label=None):
+    def __init__(self, expr, carries=None, label=None, witness=None):
+        self.witness = witness or {}    # exists-variable -> expression over the function's final locals
         self.expr = expr
         self.carries = carries          # "C04" or "C04,C15" or None (= internal)
         self.label = label or expr[:40]
@@ -47,24 +48,26 @@ class Raise:
     then   : clauses over (params, old(), exc) that hold when it fires
     """
 
-    def __init__(self, cls, when=None, then=(), carries=None, label=None, bind=None):
+    def __init__(self, cls, when=None, then=(), carries=None, label=None, bind=None, witness=None):
         self.cls = cls
         self.when = when
         self.then = [Clause.of(c) for c in then]
         self.carries = carries
         self.label = label or (cls.split('.')[-1] + (':' + when[:30] if when else ''))
         self.bind = bind
+        self.witness = witness or {}
 
 
 class Loop:
     def __init__(self, invariant=(), decreases=None, locals=None, index=None, label=None,
-                 modifies=None):
+                 modifies=None, hints=()):
         self.invariant = [Clause.of(c) for c in invariant]
         self.decreases = decreases
         self.locals = locals or {}      # declared types of locals at the loop head
         self.index = index              # name of the ghost index for `for` loops
         self.label = label
         self.modifies = modifies
+        self.hints = list(hints)     # expressions evaluated at the end of each iteration (unfolding triggers)
 
 
 class At:
@@ -87,7 +90,7 @@ class Contract:
                  raises=(), modifies=(), loops=(), assumed=False, pure=False,
                  self_type=None, ghost=None, fresh_result=False, notes='',
                  total=True, locals=None, may_raise_other=False, decreases=None,
-                 asserts=(), frame_carries=None, escape_carries=None):
+                 asserts=(), frame_carries=None, escape_carries=None, hints=()):
         self.qualname = qualname
         self.params = dict(params or {})
         self.returns = returns
@@ -104,6 +107,7 @@ class Contract:
         self.locals = locals or {}
         self.decreases = decreases
         self.asserts = list(asserts)
+        self.hints = list(hints)     # expressions evaluated at every exit (unfolding triggers)
         self.frame_carries = frame_carries
         self.escape_carries = escape_carries
 
